@@ -195,7 +195,8 @@ NearIdentProd(o1, o2, tol) ==     \* o1 * o2 = I within tol, both at scale 10^18
 AdaptOK(e) ==
     LET ab == ObsMat(e.ab)  ba == ObsMat(e.ba)  aa == ObsMat(e.aa)
         tolM == IF e.a.form = "xyz" /\ e.b.form = "xyz" THEN T1(Tol1e9) ELSE T1(Tol1e6)
-    IN /\ NearMat(ab, ExactAdapt(e.a, e.b), tolM)                    \* equals the Bradford matrix
+    IN /\ ~e.panic                                                   \* no physically valid white is refused
+       /\ NearMat(ab, ExactAdapt(e.a, e.b), tolM)                    \* equals the Bradford matrix
        /\ MapsWhite(ab, e.a, e.b, T1(Tol1e6))                        \* A's white -> B's white
        /\ \A r \in Idx : \A c \in Idx :                               \* A -> A is the identity
             Near(aa[r][c], IF r = c THEN IFromInt(1) ELSE IZero, IFromInt(1), T1(Tol1e9), S18)
